@@ -204,7 +204,7 @@ CHECKS = {
         technique="Coq proof of totality/panic-freedom of the whole analysis pipeline model (lexer, parser, table, semantic analysis, diagnostics conversion) and of all request handlers on every analysed text + model/implementation correspondence on outcomes + request fuzzing of the binary"),
     "C03": dict(
         category="proof",
-        text="Machine-checked (Props/C03.v, 58 theorems): for ARBITRARY trees and tables the analysis algorithm agrees with a "
+        text="Machine-checked (Props/C03.v, 72 theorems): for ARBITRARY trees and tables the analysis algorithm agrees with a "
              "declarative typing of SPL (Spec/Typing.v): no false positive (C03_analyze_sound, C03_build_sound), no false "
              "negative (C03_analyze_complete, C03_analyze_exact), per rule exactly that rule's message at the node the rule names "
              "(19 semantic + 10 declaration C03_rule_* theorems), a single semantic fault at any depth yields exactly one "
@@ -217,8 +217,14 @@ CHECKS = {
              "procedure, parameter, variable / must be a reference parameter / main missing, not a procedure, with parameters - "
              "one constructor per rule in Proofs/DeclFaults.v, the rest of the program valid w.r.t. the table the faulty "
              "declaration leaves; from texts on: C03_single_declaration_fault_text, C03_main_is_missing_text, "
-             "C03_main_is_not_a_procedure_text). Not proved: the missing-token syntax faults (no Coq definition), programs that USE "
-             "an entity of unknown type. The check validates the pipeline on rendered programs: well-typed => none; 27+ "
+             "C03_main_is_not_a_procedure_text). Beyond the rule classes the property lists, the missing-token SYNTAX faults are "
+             "proved too (Proofs/SynFaults*.v, a zipper through the abstract syntax): a valid program from which the `;` of a "
+             "statement or declaration, the `)` of a call / condition / parenthesised expression (at any depth), the `]` of an "
+             "index or the `}` of a procedure body was deleted gets exactly one diagnostic - `missing trailing ;` / `missing "
+             "closing X` - with an empty range at the end of the token in front of the gap, the mandated tree otherwise, and no "
+             "semantic follow-up (C03_missing_token, _analysis, _text; per family C03_missing_semicolon / _paren / _bracket / "
+             "_brace). Not proved: deleted array-size `]`, parameter-list `)`, openers and `:` `=` `of` (evaluated: conform); "
+             "programs that USE an entity of unknown type. The check validates the pipeline on rendered programs: well-typed => none; 27+ "
              "single-fault injectors => exactly the prescribed diagnostic(s) on the culprit's byte range; LSP publishDiagnostics "
              "equal; model = implementation on everything incl. the malformed stream; and the same along edit histories "
              "(introduce / repair one violation with unrelated edits around it, so that the node carrying the diagnostic is reused "
